@@ -181,6 +181,83 @@ def r17_4(ctx: Ctx, rep: Report, fixture: bool = False) -> int:
     return hits
 
 
+def derived_attributes_refreshed(ctx: Ctx, rep: Report, rid: str = "R17.6", fixture: bool = False) -> int:
+    """An attribute that is computed from other attributes of the object - a helper object built from the object's
+    settings (`self._names = PortName(protocol=self._protocol, platform=self._platform, ...)`), a dict that snapshots them -
+    is computed again by every setter / public method that changes one of those settings: otherwise the next operation
+    works with the settings the object had before."""
+    rep.rule(rid)
+    base = ctx.prog.classes.get("Base")
+    hits = 0
+    n_cand = 0
+    for cls in ctx.prog.classes.values():
+        cands: Dict[str, Tuple[Func, ast.AST, Set[str]]] = {}
+        for f in cls.all_funcs():
+            for n in own_nodes(f.node):
+                if not (isinstance(n, (ast.Assign, ast.AnnAssign)) and n.value is not None):
+                    continue
+                t = n.targets[0] if isinstance(n, ast.Assign) else n.target
+                if not (isinstance(t, ast.Attribute) and src(t.value) == "self"):
+                    continue
+                v = n.value
+                # the value may be built by a private helper of the class that ends in the construction
+                if isinstance(v, ast.Call) and isinstance(v.func, ast.Attribute) and src(v.func.value) == "self" and not v.args and not v.keywords:
+                    m = cls.lookup_method(v.func.attr)
+                    if m is not None:
+                        rets = [r.value for r in own_nodes(m.node) if isinstance(r, ast.Return) and r.value is not None and not (isinstance(r.value, ast.Constant) and r.value.value is None)]
+                        if len(rets) == 1:
+                            v = rets[0]
+                reads = {x.attr for x in ast.walk(v) if isinstance(x, ast.Attribute) and src(x.value) == "self" and isinstance(x.ctx, ast.Load)}
+                if not reads:
+                    continue
+                kind = None
+                if isinstance(v, ast.Call) and isinstance(v.func, ast.Name):
+                    c = ctx.prog.resolve_name(f.module, v.func.id)
+                    if isinstance(c, Class) and not (base is not None and c.is_subclass_of(base)) and any(isinstance(x, ast.Attribute) and src(x.value) == "self" for a in list(v.args) + [k.value for k in v.keywords] for x in ast.walk(a)):
+                        kind = f"a {c.name} built from"
+                    elif v.func.id == "dict" and len(reads) >= 2 and all(k.arg for k in v.keywords):
+                        kind = "a dict that snapshots"
+                elif isinstance(v, ast.Dict) and len(reads) >= 2:
+                    kind = "a dict that snapshots"
+                if kind:
+                    cands[t.attr] = (f, n, {cls_norm(cls, r) for r in reads}, kind)  # type: ignore[assignment]
+        if not cands:
+            continue
+        memo: Dict = {}
+        users = [c for c in ctx.prog.classes.values() if cls in c.mro]
+        for attr, (f0, n0, deps, kind) in sorted(cands.items()):  # type: ignore[misc]
+            n_cand += 1
+            for ucls in users:
+                entries = []
+                for c in ucls.mro:
+                    for g in c.all_funcs():
+                        if g.parent is not None or g.name == "__init__":
+                            continue
+                        own = ucls.lookup_setter(g.name) if g.kind == "setter" else (ucls.lookup_method(g.name) if g.kind in ("method",) else None)
+                        if own is g and (g.kind == "setter" or not g.name.startswith("_")):
+                            entries.append(g)
+                for e in entries:
+                    w = {cls_norm(ucls, a) for a, _k in ctx.effects.self_writes(e, ucls)}
+                    touched = sorted(w & deps)
+                    if not touched or attr in w and attr in _must_assign(ctx, e, ucls, memo):
+                        continue
+                    if attr in _must_assign(ctx, e, ucls, memo):
+                        continue
+                    hits += 1
+                    tag = e.qualname if ucls is e.cls else f"{e.qualname} (as inherited by {ucls.name})"
+                    rep.violation(tag, f"writes {touched}, self.{attr} keeps its value", f"self.{attr} is {kind} {sorted(deps)} ({f0.qualname}); this operation changes {touched} and does not compute it again: what is done next (parsing names, building entries) still uses the old settings", where(e), inp=f"obj = {ucls.name}(...); obj.{e.name} = <other value>; then parse or render")
+    if not fixture:
+        rep.instance()
+        if hits == 0:
+            rep.ok("package", f"every attribute derived from the object's settings ({n_cand} found) is recomputed by every operation that changes them", nontrivial=bool(n_cand))
+    return hits
+
+
+def cls_norm(cls: Class, attr: str) -> str:
+    """`platform` and `_platform` are one setting when the class has a getter of that name for the private attribute."""
+    return attr.lstrip("_")
+
+
 def carried_flags(ctx: Ctx, rep: Report, rid: str = "R17.5", fixture: bool = False) -> int:
     """No method remembers in a flag that "there is nothing to do" when what it would do depends on objects nested in the
     object (ports, addresses): those are handed out to the user and change without the owner noticing, so the flag is
@@ -207,10 +284,25 @@ def carried_flags(ctx: Ctx, rep: Report, rid: str = "R17.5", fixture: bool = Fal
                 if nested:
                     hits += 1
                     rep.violation(f.qualname, f"self.{fl} ... {snippet(sets[0], 30)}", f"the method returns early when self.{fl} is set and sets it itself after looking at `{snippet(nested[0], 30)}`: the nested object can change without this object noticing, and the next call answers from the flag", where(f, sets[0]), inp="ace.ungroup_ports(); ace.dstport.items = [80, 443]; ace.ungroup_ports()")
+    # "same value as last time" shortcut of a setter: the value equals what is stored, but the object need not be in the
+    # state that value produced any more (its items were edited in place since)
+    for cls in ctx.prog.classes.values():
+        for f in cls.setters.values():
+            if len(f.params) < 2:
+                continue
+            p_ = f.params[1]
+            for x in own_nodes(f.node):
+                if isinstance(x, ast.If) and x.body and isinstance(x.body[-1], ast.Return):
+                    for c in ast.walk(x.test):
+                        if isinstance(c, ast.Compare) and len(c.ops) == 1 and isinstance(c.ops[0], ast.Eq):
+                            sides = [c.left, c.comparators[0]]
+                            if any(isinstance(s_, ast.Name) and s_.id == p_ for s_ in sides) and any(isinstance(s_, ast.Attribute) and src(s_.value) == "self" for s_ in sides):
+                                hits += 1
+                                rep.violation(f.qualname, snippet(x.test, 60), "the setter does nothing when it is given the value it stored last time: what that value once produced (parsed items, derived fields) may have been changed in place since, and is not rebuilt - the answers from the flag of 'already done' are stale", where(f, x), inp="g = AddrGroup(text); g.items.pop(); g.line = text  # nothing is parsed")
     if not fixture:
         rep.instance()
         if hits == 0:
-            rep.ok("package", "no method keeps a 'nothing to do' flag over the state of nested objects", nontrivial=False)
+            rep.ok("package", "no method keeps a 'nothing to do' flag over the state of nested objects; no setter skips its work for a repeated value", nontrivial=False)
     return hits
 
 
@@ -442,6 +534,8 @@ def run(ctx: Ctx, rep: Report, tier: str) -> None:
     run_fixture("shared", lambda c, r: r17_4(c, r, fixture=True), expect_violation="one object for")
     carried_flags(ctx, rep)
     run_fixture("carried", lambda c, r: carried_flags(c, r, fixture=True), expect_violation="answers from the flag")
+    derived_attributes_refreshed(ctx, rep)
+    run_fixture("carried", lambda c, r: derived_attributes_refreshed(c, r, fixture=True), expect_violation="keeps its value")
     n = memo_rules(ctx, rep, rid="R17.2m")
     if not n:
         rep.note("R17.2m no memoised method in the package")
